@@ -64,8 +64,10 @@ def make_sub(rng, g, name, modeset, template, child=None):
     return "\n".join(lines) + "\n"
 
 
-def build(rng, g):
-    """Returns (files {relative path: text}, main relative path, info)."""
+def build(rng, g, symbolic_args=False):
+    """Returns (files {relative path: text}, main relative path, info).
+    symbolic_args: template calls in the main script may pass the main script's own {parameters}
+    (used by C19 only; the reference does not interpret such calls)."""
     files = {}
     tags = set()
     used_names = set()
@@ -151,7 +153,12 @@ def build(rng, g):
             kw = ""
             if params:
                 tags.add("template-call")
-                kw = "(" + ", ".join("%s=%s" % (p, rng.choice(["0.5", "2", "1.25", "3/4", "-0.7", "2*0.3", "pi/4"])) for p in params) + ")"
+                vals_ = ["0.5", "2", "1.25", "3/4", "-0.7", "2*0.3", "pi/4"]
+                if symbolic_args and rng.random() < 0.6:
+                    # the caller's own parameters, named like the callee's (possibly crossed over)
+                    vals_ = ["{%s}" % q for q in params] + ["{zz}", "0.5"]
+                    tags.add("symbolic-include-argument")
+                kw = "(" + ", ".join("%s=%s" % (p, rng.choice(vals_)) for p in params) + ")"
             body.append("%s%s | %s" % (name, kw, rng.choice(["[%s]", "(%s)", "%s"]) % ", ".join(str(m) for m in modes)))
             calls.append((name, modes))
     for _ in range(rng.choice([0, 1, 2, 3])):
